@@ -22,3 +22,9 @@ Props/MapProps.vos Props/MapProps.vok Props/MapProps.required_vos: Props/MapProp
 Props/ColorProps.vo Props/ColorProps.glob Props/ColorProps.v.beautified Props/ColorProps.required_vo: Props/ColorProps.v Lib/U63Ops.vo Lib/Sweep.vo
 Props/ColorProps.vio: Props/ColorProps.v Lib/U63Ops.vio Lib/Sweep.vio
 Props/ColorProps.vos Props/ColorProps.vok Props/ColorProps.required_vos: Props/ColorProps.v Lib/U63Ops.vos Lib/Sweep.vos
+Model/Emitter.vo Model/Emitter.glob Model/Emitter.v.beautified Model/Emitter.required_vo: Model/Emitter.v Lib/ZList.vo
+Model/Emitter.vio: Model/Emitter.v Lib/ZList.vio
+Model/Emitter.vos Model/Emitter.vok Model/Emitter.required_vos: Model/Emitter.v Lib/ZList.vos
+Model/EmitterTie.vo Model/EmitterTie.glob Model/EmitterTie.v.beautified Model/EmitterTie.required_vo: Model/EmitterTie.v Lib/ZList.vo Model/Emitter.vo
+Model/EmitterTie.vio: Model/EmitterTie.v Lib/ZList.vio Model/Emitter.vio
+Model/EmitterTie.vos Model/EmitterTie.vok Model/EmitterTie.required_vos: Model/EmitterTie.v Lib/ZList.vos Model/Emitter.vos
